@@ -55,10 +55,18 @@ type Violation struct {
 	HHist   json.RawMessage `json:"handle_history,omitempty"`
 	FCase   *frameCaseJSON  `json:"frame_case,omitempty"`
 	DCase   *dcaseRef       `json:"damage_case,omitempty"`
+	NCase   *ncaseRef       `json:"notify_case,omitempty"`
 	Profile string          `json:"profile"`
 	Context []string        `json:"context"` // the trace lines of that history up to the rejected one
 	Note    string          `json:"note"`
 	hid     int
+}
+
+type ncaseRef struct {
+	Kind  string  `json:"kind"` // schedule | free | blocking
+	ID    int     `json:"id"`
+	Seed  int64   `json:"seed"`
+	Sched []nstep `json:"schedule,omitempty"`
 }
 
 type dcaseRef struct {
@@ -77,6 +85,9 @@ type SeqRun struct {
 	hhists   map[int][]byte
 	fcases   map[int]frameCase
 	dcases   map[int]bool
+	stepShards []string
+	ncases     map[int]*ncaseRef
+	Notes      []string
 	shards   []string
 	Events   int
 	Counts   map[string]int
@@ -289,7 +300,10 @@ func (r *SeqRun) validateShard(path string) {
 		v := Violation{Prop: r.P.Prop, Line: bad, Event: json.RawMessage(lines[bad-1]), History: r.hists[eh.Hid],
 			HHist: r.hhists[eh.Hid], Profile: r.P.Prop, Context: ctx}
 		v.hid = eh.Hid
-		if r.dcases[eh.Hid] && r.P.Prop == "C14" {
+		if nc, ok := r.ncases[eh.Hid]; ok && r.P.Prop == "C18" {
+			v.NCase = nc
+			v.History, v.HHist = nil, nil
+		} else if r.dcases[eh.Hid] && r.P.Prop == "C14" {
 			v.DCase = &dcaseRef{ID: eh.Hid, Tier: r.Tier, Seed: r.Seed}
 			v.History, v.HHist = nil, nil
 		} else if fc, ok := r.fcases[eh.Hid]; ok && r.P.Module == "TraceFrames.tla" {
@@ -308,7 +322,7 @@ func (r *SeqRun) validateShard(path string) {
 
 // confirm re-executes the history alone; only a reproduced rejection is a violation.
 func (r *SeqRun) confirm(v *Violation) {
-	if v.History == nil && v.HHist == nil && v.FCase == nil && v.DCase == nil {
+	if v.History == nil && v.HHist == nil && v.FCase == nil && v.DCase == nil && v.NCase == nil {
 		r.infra("rejected event without history: %s", truncate(string(v.Event), 500))
 		return
 	}
@@ -341,6 +355,35 @@ func truncate(s string, n int) string {
 func (r *SeqRun) replayAny(v *Violation) (bool, int, string) {
 	if v.History != nil {
 		return r.replayHistory(v.History)
+	}
+	if v.NCase != nil {
+		dir, _ := os.MkdirTemp(r.Scratch, "replay")
+		defer os.RemoveAll(dir)
+		path := filepath.Join(dir, "trace.ndjson")
+		tw, err := NewTraceWriter(path, r.P.KF)
+		if err != nil {
+			r.infra("replay: %v", err)
+			return true, 0, ""
+		}
+		if v.NCase.Kind == "schedule" {
+			// a gated schedule is deterministic: it must show again
+			steps, _ := NewTraceWriter(filepath.Join(dir, "steps.ndjson"), nil)
+			replaySchedule(v.NCase.ID, v.NCase.Sched, steps, tw)
+			steps.Close()
+			tw.Close()
+			return r.judgeReplay(path)
+		}
+		// free-running goroutines cannot be forced into the same schedule: the recorded execution is real
+		// behaviour of the real code, TLC re-judges the recorded events (DESIGN.md section 1)
+		tw.Close()
+		lines := []string{`{"ev":"config","kf":[]}`}
+		for _, ln := range v.Context {
+			if ln != "..." && !strings.Contains(ln, `"ev":"config"`) {
+				lines = append(lines, ln)
+			}
+		}
+		writeLines(path, lines)
+		return r.judgeReplay(path)
 	}
 	if v.DCase != nil {
 		dir, _ := os.MkdirTemp(r.Scratch, "replay")
